@@ -241,6 +241,68 @@ def _run_solve(name, share_buffers=True):
     return kw, (np.asarray(c), np.asarray(f), [np.asarray(x) for x in g]), before == after
 
 
+def _ownership(kw, c, f, g):
+    """A result belongs to the caller.  Every returned array is written with a distinct value per element and read back
+    (then restored): an array whose elements alias each other, another returned array or an argument fails the read-back,
+    i.e. a caller who edits one entry of its result would silently change others.  Read-only arrays are left alone."""
+    arrs = [("conc", c), ("flx", f), ("grid X", g[0]), ("grid Y", g[1]), ("grid Z", g[2])]
+    saved = [(n, a, a.copy()) for n, a in arrs]
+    ins = _digest_arrays(kw)
+    bad = None
+    for k, (n, a, keep) in enumerate(saved):
+        if not (isinstance(a, np.ndarray) and a.flags.writeable and a.size):
+            continue
+        pat = (np.arange(a.size, dtype=float).reshape(a.shape) + 1000.0 * (k + 1)).astype(a.dtype)
+        a[...] = pat
+        if not np.array_equal(a, pat):
+            bad = ("self-alias", "writing every element of the returned %s (shape %s, strides %s) and reading it back gives %d different values - its elements share memory" % (n, a.shape, a.strides, int((a != pat).sum())))
+            break
+    if bad is None:
+        for k, (n, a, keep) in enumerate(saved):
+            if isinstance(a, np.ndarray) and a.flags.writeable and a.size:
+                pat = (np.arange(a.size, dtype=float).reshape(a.shape) + 1000.0 * (k + 1)).astype(a.dtype)
+                if not np.array_equal(a, pat):
+                    bad = ("cross-alias", "writing the other returned arrays changed the returned %s - returned arrays share memory" % n)
+                    break
+        if bad is None and _digest_arrays(kw) != ins:
+            bad = ("argument-alias", "writing into the returned arrays changed an argument array - the result shares memory with the caller's input")
+    for n, a, keep in saved:
+        if isinstance(a, np.ndarray) and a.flags.writeable and a.size:
+            a[...] = keep
+    return bad
+
+
+SMOOTH_Z0 = (0.16, 1e-3, 1e-5, 1e-6, 2e-8)
+
+
+def case_precision(case):
+    """single precision differs from double only by storage rounding (1e-5 of the field maximum) - over roughness lengths
+    from crops down to ice / calm water, where the lowest layers have diffusivities of 1e-7 .. 1e-9 m2/s"""
+    from vf.oracles import most
+
+    S = sl.solver()
+    z0, fp, lv = case["z0"], case["footprint"], case["levels"]
+    zm, ust = 5.0, 0.2
+    z = most.stretched_grid(6, zm, z0)
+    s = most.speed(z, z0, ust, 1e9) + 0.3
+    K = most.K(z, ust, 1e9)
+    prof = (0.8 * s, 0.6 * s, K.copy(), K.copy(), K.copy())
+    q = np.random.default_rng(3).random((6, 8)) + 0.1
+    out = {}
+    for pr in ("double", "single"):
+        _, c, f = S(q, z, prof, (80.0, 90.0), lv, modes=(8, 6), halo=13.0, precision=pr, footprint=fp, meas_pt=(30.0, 45.0), srf_bg_conc=0.5)
+        out[pr] = (np.asarray(c, dtype=float), np.asarray(f, dtype=float))
+    v = []
+    worst = 0.0
+    for k, nm in ((0, "conc"), (1, "flux")):
+        e = sl.relerr(out["single"][k], out["double"][k], max(np.abs(out["double"][k]).max(), 1e-300))
+        worst = max(worst, e)
+        if not e <= 1e-5:
+            v.append({"sub": "single-vs-double", "sig": "single-vs-double/lattice", "msg": "z0=%g m (Kz at the lowest node %.2e m2/s), %s, levels %r: single-precision %s differs from double precision by %.2e of the field maximum (allowed 1e-5)"
+                      % (z0, K[0], "footprint" if fp else "dispersion", lv, nm, e)})
+    return {"v": v, "nt": True, "n": 2, "obs": {"worst": float(worst), "Kz0": float(K[0])}}
+
+
 def case_reference(case):
     """every solve of the alphabet, alone, in a fresh one-thread process; written to case['path']"""
     out = {}
@@ -318,6 +380,9 @@ def case_history(case):
                     e = sl.relerr(a, b, max(np.abs(b).max(), 1e-300))
                     if not e <= 1e-5:
                         v.append({"sub": "single-vs-double", "sig": "single-vs-double", "msg": "single-precision %s differs from double precision by %.2e of the field maximum (history %s)" % (nm, e, sig_hist)})
+            own = _ownership(kw, c, f, g)
+            if own:
+                v.append({"sub": "result-ownership", "sig": "result-ownership/%s" % own[0], "msg": "solve %s at position %d of history %s: %s" % (name, pos, sig_hist, own[1])})
             for (n2, t2, cb, fb, _, _) in runs:
                 if n2 == name and t2 == nthreads and (cb != c.tobytes() or fb != f.tobytes()):
                     v.append({"sub": "bit-identity", "sig": "bit-identity/%s" % name,
@@ -388,6 +453,7 @@ def run(ctx):
     transitions += 2 * len(pairs)
     for c, r in zip(pairs, pr):
         seen.setdefault(r["state"], (c, r["state_detail"]))
+    ctx.run_cases(case_precision, [{"z0": z0, "footprint": fp, "levels": lv} for z0, fp, lv in itertools.product(SMOOTH_Z0, (False, True), (6, [2, 6, 9]))], sub="single vs double over surface regimes")
     nodedup = None
     if ctx.tier != "quick":
         # validate the canonicalisation: complete depth-3 product WITHOUT deduplication from the no-wisdom root
